@@ -111,6 +111,16 @@ Lift(ds, mk(_)) ==
 
 RECURSIVE Denotes(_, _), DenAny(_)
 
+\* ------------------------------------------------------------------ Presence (C03)
+\* the presence rules over the set D of properties that are set after defaulting, stated per rule kind
+Presence(s, D) ==
+    LET P == {s.props[i] : i \in DOMAIN s.props}
+        set(n) == n \in D
+    IN /\ \A p \in P : p.required => set(p.name)                                                         \* required
+       /\ \A p \in P : (\E i \in DOMAIN p.required_if : set(p.required_if[i])) => set(p.name)             \* required_if: any listed one set
+       /\ \A p \in P : (Len(p.required_if_not) > 0 /\ \A i \in DOMAIN p.required_if_not : ~set(p.required_if_not[i])) => set(p.name)   \* required_if_not: none of the listed set
+       /\ \A p \in P : set(p.name) => \A i \in DOMAIN p.conflicts : ~set(p.conflicts[i])                  \* conflicts
+
 \* ------------------------------------------------------------------ C03: objects and one-of
 \* "An object schema accepts a mapping exactly when it has no undeclared or non-string keys, every
 \* supplied property is accepted by its type, absent properties that declare a default receive that
@@ -132,6 +142,10 @@ DenObject(s, raw) ==
              ds == [i \in DOMAIN s.props |-> IF eff[i].some THEN Denotes(s.props[i].type, eff[i].v) ELSE DOpen]
              present == {i \in DOMAIN s.props : eff[i].some}
          IN IF \E i \in present : ds[i].d = "none" THEN DNone
+            \* "after defaulting, every property's presence rule holds" is a statement about the MAPPING: a struct-mapped
+            \* result cannot show that a by-value field (a list, a map, a number) was never supplied, so the rules are
+            \* decided here, on the properties present after defaulting (and once more on the native value: Satisfies)
+            ELSE IF ~Presence(s, {s.props[i].name : i \in present}) THEN DNone
             \* ("after defaulting ... no disabled property is in use": a disabled property that its own default
             \* puts in use makes Satisfies fail, like a supplied one)
             ELSE IF \E i \in present : ds[i].d = "open" THEN DOpen
@@ -204,22 +218,15 @@ Denotes(s, raw) ==
                      all == ks \o ws
                  IN IF \E i \in 1..(2 * n) : all[i].d = "none" THEN DNone
                     ELSE IF \E i \in 1..(2 * n) : all[i].d = "open" THEN DOpen
-                    ELSE IF \E i, j \in 1..n : i # j /\ EqModRep(ks[i].v, ks[j].v) THEN DOpen   \* unspecified by C02
+                    \* two raw keys denoting the same key: the raw map denotes no map value ("exactly the values that meet
+                    \* the declared constraints": one of the two entries would be lost and the size bounds, checked on the
+                    \* raw length, would no longer hold for the result) - rejected whatever the raw map's Go type
+                    ELSE IF \E i, j \in 1..n : i # j /\ EqModRep(ks[i].v, ks[j].v) THEN DNone
                     ELSE DSome(M("typed", [i \in 1..n |-> <<ks[i].v, ws[i].v>>]))
       [] s.kind = "object" -> DenObject(s, raw)
       [] s.kind = "oneof" -> DenOneOf(s, raw)
       [] s.kind = "scope" -> Denotes(Unfold(s, VDepth(raw)), raw)
       [] s.kind = "refcut" -> DNone       \* see SchemaSem!Unser
-
-\* ------------------------------------------------------------------ Presence (C03)
-\* the presence rules over the set D of properties that are set after defaulting, stated per rule kind
-Presence(s, D) ==
-    LET P == {s.props[i] : i \in DOMAIN s.props}
-        set(n) == n \in D
-    IN /\ \A p \in P : p.required => set(p.name)                                                         \* required
-       /\ \A p \in P : (\E i \in DOMAIN p.required_if : set(p.required_if[i])) => set(p.name)             \* required_if: any listed one set
-       /\ \A p \in P : (Len(p.required_if_not) > 0 /\ \A i \in DOMAIN p.required_if_not : ~set(p.required_if_not[i])) => set(p.name)   \* required_if_not: none of the listed set
-       /\ \A p \in P : set(p.name) => \A i \in DOMAIN p.conflicts : ~set(p.conflicts[i])                  \* conflicts
 
 \* ------------------------------------------------------------------ Satisfies
 \* the declared constraints, on a native value of the schema's type
